@@ -28,6 +28,9 @@ CHECKS = {
     'C10': ('fault_enumeration', 'runtime monitoring: model SAD (decoded from the real netlink request bytes) compared with the tracked CHILD_SAs after every real main_loop iteration, under a kernel refusal injected at every request index',
             'For ~30 scripted histories (all negotiation paths, collisions, refused negotiations, INVALID_KE retries, timeouts) a kernel error is injected at each individual netlink request of each endpoint, one run per index; after every event the model SAD must equal the tracked set, an IKE rekey must not touch the kernel and no un-injected EEXIST/ESRCH may occur. Random lossless/lossy walks add unscripted histories.',
             'fake kernel semantics (EEXIST/ESRCH like Linux, injected refusal = nothing applied); tracked set read from the controller between iterations', '2/C10'),
+    'C13': ('fault_enumeration', 'runtime monitoring under a virtual clock: retransmission / DPD / lifetime / give-up monitors fed with every real main_loop iteration, over every subset of lost transmissions, tick sequences and a partition injected after every micro-step',
+            'Every request kind on both roles x all 16 subsets of lost transmissions x four tick sequences; the same after COOKIE / INVALID_KE_PAYLOAD retries; a partition after every micro-step of ten scripted histories (both sides must empty their SAD within dpd + 20 s + 3 ticks); idle pairs run to twice the lifetime; a peer answering every rekey with TEMPORARY_FAILURE. Monitors: byte-identical retransmissions, never before the deadline, non-decreasing gaps, budget respected and used, nothing re-sent after its response, nothing waiting > 45 s, SAD == tracked set at every step, DPD probe timing, rekey start window, DELETE 30 s after a rekey that keeps failing.',
+            'virtual time; deadlines read from the IKE_SA between iterations; one tick = one loop iteration per endpoint', '2/C13'),
     'C16': ('exploration', 'runtime monitoring: table-exactness, routing, status-query and EXPIRE-owner monitors after every real main_loop iteration',
             'Table invariants (no duplicate, no DELETED entry, nothing returns, successor exactly once) and routing (owner of the header SPI selected by the I flag; fresh responder per IKE_SA_INIT request; unknown SPI has no effect) are evaluated after every step of exhaustive <=1-duplicate and sampled <=3-duplicate schedules of rekey/delete exchanges, hub histories with several concurrent IKE_SAs and simultaneous initiations, a forged-header SPI x flag x exchange matrix, status queries and EXPIRE notices incl. a peer-chosen SPI collision.',
             'fake kernel/network; forged datagrams are unauthenticated (routing observed, not acceptance); SPI collision forced through the peer\'s os.urandom', '2/C16'),
